@@ -159,9 +159,86 @@ def _container_ctor(e: ast.expr | None) -> tuple[bool, ast.expr | None]:
     return False, None
 
 
+def _positional_records(stmts: list[ast.stmt]) -> list[ast.stmt]:
+    """NamedTuple constructions of the package spelled with keywords -> positional (the record rules read fields by position)."""
+    import copy
+    from .normalize import NAMEDTUPLE_FIELDS
+
+    class T(ast.NodeTransformer):
+        def visit_Call(self, node: ast.Call) -> ast.AST:
+            self.generic_visit(node)
+            fields = NAMEDTUPLE_FIELDS.get(dotted(node.func) or "")
+            if fields is None or not node.keywords or any(k.arg is None for k in node.keywords) or any(isinstance(a, ast.Starred) for a in node.args):
+                return node
+            names = [f for f, _ in fields]
+            slots: list[ast.expr | None] = [None] * len(names)
+            for i, a in enumerate(node.args[:len(names)]):
+                slots[i] = a
+            for k in node.keywords:
+                if k.arg not in names or slots[names.index(k.arg)] is not None:
+                    return node
+                slots[names.index(k.arg)] = k.value
+            for i, (f, d) in enumerate(fields):
+                if slots[i] is None and d is not None:
+                    slots[i] = copy.deepcopy(d)
+            if any(x is None for x in slots):
+                return node
+            return ast.copy_location(ast.Call(func=node.func, args=list(slots), keywords=[]), node)  # type: ignore[arg-type]
+
+    return [ast.fix_missing_locations(T().visit(copy.deepcopy(st))) for st in stmts]
+
+
+def _level_lists_to_queue(body: list[ast.stmt]) -> list[ast.stmt]:
+    """Breadth-first search written with one list per level
+
+        while L:                       while L:
+            N = []                         x = L.pop(0)
+            for x in L: BODY(N)    ==          BODY(L)
+            L = N
+
+    processes the same elements in the same order as a FIFO queue (everything put while a level is processed sits behind the rest of
+    that level): the loop is rewritten into the queue form the calculus knows.  Conditions: BODY only puts on N (append / extend), does
+    not read L or N otherwise and has no break; nothing else happens in the outer loop."""
+    import copy
+    out: list[ast.stmt] = []
+    for st in body:
+        if isinstance(st, ast.While) and isinstance(st.test, ast.Name) and not st.orelse and len(st.body) == 3:
+            L = st.test.id
+            a, lp, c = st.body
+            if isinstance(a, ast.Assign) and len(a.targets) == 1 and isinstance(a.targets[0], ast.Name) and isinstance(a.value, ast.List) and not a.value.elts \
+                    and isinstance(lp, ast.For) and isinstance(lp.iter, ast.Name) and lp.iter.id == L and isinstance(lp.target, ast.Name) and not lp.orelse \
+                    and isinstance(c, ast.Assign) and len(c.targets) == 1 and norm(c.targets[0]) == L and isinstance(c.value, ast.Name) and c.value.id == a.targets[0].id:
+                N = a.targets[0].id
+                ok = not any(isinstance(n, ast.Break) for n in walk_body(lp.body))
+                for n in walk_body(lp.body):
+                    if isinstance(n, ast.Name) and n.id == L:
+                        ok = False
+                    if isinstance(n, ast.Name) and n.id == N:
+                        ok = ok and isinstance(n.ctx, ast.Load)
+                uses_n = [n for n in walk_body(lp.body) if isinstance(n, ast.Name) and n.id == N]
+                puts_n = [n.func.value for n in walk_body(lp.body) if isinstance(n, ast.Call) and isinstance(n.func, ast.Attribute) and n.func.attr in ("append", "extend")
+                          and isinstance(n.func.value, ast.Name) and n.func.value.id == N]
+                if ok and len(uses_n) == len(puts_n) and all(any(u is p_ for p_ in puts_n) for u in uses_n):
+                    new_body = copy.deepcopy(lp.body)
+                    for b_ in new_body:
+                        for n in ast.walk(b_):
+                            if isinstance(n, ast.Name) and n.id == N:
+                                n.id = L
+                    take = ast.Assign(targets=[ast.Name(id=lp.target.id, ctx=ast.Store())],
+                                      value=ast.Call(func=ast.Attribute(value=ast.Name(id=L, ctx=ast.Load()), attr="pop", ctx=ast.Load()), args=[ast.Constant(value=0)], keywords=[]))
+                    w = ast.While(test=st.test, body=[take] + new_body, orelse=[])
+                    ast.copy_location(w, st)
+                    ast.copy_location(take, lp)
+                    out.append(ast.fix_missing_locations(w))
+                    continue
+        out.append(st)
+    return out
+
+
 def build_model(func: Func, mode: dict[str, Any]) -> Model:
     fn = func.node
     body = specialise([s for s in fn.body if not (isinstance(s, ast.Expr) and isinstance(s.value, ast.Constant))], mode)
+    body = _level_lists_to_queue(_positional_records(body))
     m = Model(func, mode)
     loops = [s for s in body if isinstance(s, ast.While)]
     main = None
